@@ -539,6 +539,107 @@ v("C02", "unary-details-first-only", "httpgrpc/server.go",
 				}
 			}""", "R3", "to-headers", "only the first error detail is sent")
 
+# ------------------------------------------------------------------ C04
+v("C04", "d12-stream-untranslated", "httpgrpc/client.go",
+  """		if ctxErr := cs.ctx.Err(); rErr != nil && ctxErr != nil {
+			// The context ended: report that, as a gRPC status, instead of
+			// whatever I/O error the cancellation provoked.
+			rErr = statusFromContextError(ctxErr)
+		}
+""", "", "R2", "rErr<-", "pre-fix D12 (stream)")
+v("C04", "d12-unary-untranslated", "httpgrpc/client.go",
+  """		if ctxErr := ctx.Err(); ctxErr != nil {
+			err = ctxErr
+		}
+		return statusFromContextError(err)""", """		return err""", "R2", "Invoke:return", "pre-fix D12 (unary)")
+v("C04", "d7-http-unary-raw-handler-error", "httpgrpc/server.go",
+  """			st, _ := status.FromError(internal.TranslateContextError(err))
+			if st.Code() == codes.OK {
+				// preserve all error details, but rewrite the code since we don't want
+				// to send back a non-error status when we know an error occured
+				stpb := st.Proto()
+				stpb.Code = int32(codes.Internal)
+				st = status.FromProto(stpb)
+			}
+			statProto := st.Proto()
+			w.Header()""", """			st, _ := status.FromError(err)
+			if st.Code() == codes.OK {
+				// preserve all error details, but rewrite the code since we don't want
+				// to send back a non-error status when we know an error occured
+				stpb := st.Proto()
+				stpb.Code = int32(codes.Internal)
+				st = status.FromProto(stpb)
+			}
+			statProto := st.Proto()
+			w.Header()""", "R4", "status-of-handler-error", "pre-fix D7 (unary)")
+v("C04", "d6-inproc-unary-raw-frame-error", "inprocgrpc/in_process.go",
+  """			case r.err != nil:
+				return internal.TranslateContextError(r.err)""", """			case r.err != nil:
+				return r.err""", "R4", "frame-error", "pre-fix D6")
+v("C04", "inproc-invoke-raw-ctx-err", "inprocgrpc/in_process.go",
+  """		case <-ctx.Done():
+			return internal.TranslateContextError(ctx.Err())
+		}
+	}
+}""", """		case <-ctx.Done():
+			return ctx.Err()
+		}
+	}
+}""", "R2", "Invoke:return", "raw ctx.Err() from the unary loop")
+v("C04", "recvmsglocked-raw", "inprocgrpc/in_process.go",
+  """			if err == io.EOF {
+				s.state = streamStateClosed
+			}
+			return internal.TranslateContextError(err)""", """			if err == io.EOF {
+				s.state = streamStateClosed
+			}
+			return err""", "R2", "RecvMsg", "stream receive returns raw ctx error from readMessage")
+v("C04", "handler-ctx-background", "inprocgrpc/in_process.go",
+  "svrCtx, svrCancel := context.WithCancel(makeServerContext(ctx))", "svrCtx, svrCancel := context.WithCancel(makeServerContext(context.Background()))", "R3", "ctx", "handler never cancelled")
+v("C04", "unary-handler-ctx-detached", "inprocgrpc/in_process.go",
+  """	newCtx := context.Context(noValuesContext{ctx})
+
+	if meta, ok""", """	newCtx := context.Background()
+
+	if meta, ok""", "R3", "ctx", "server context loses cancellation and deadline")
+v("C04", "request-unbound", "httpgrpc/client.go",
+  "reply, err := transport.RoundTrip(req.WithContext(cs.ctx))", "reply, err := transport.RoundTrip(req)", "R3", "request-ctx", "stream request not bound to the call context")
+v("C04", "request-background", "httpgrpc/client.go",
+  "reply, err := ch.Transport.RoundTrip(r.WithContext(ctx))", "reply, err := ch.Transport.RoundTrip(r.WithContext(context.Background()))", "R3", "request-ctx", "unary request bound to a background context")
+v("C04", "recv-without-ctx-arm", "httpgrpc/client.go",
+  """	select {
+	case <-cs.ctx.Done():
+		return statusFromContextError(cs.ctx.Err())
+	case msg, ok := <-cs.rCh:""", """	select {
+	case msg, ok := <-cs.rCh:""", "R1", "select", "HTTP RecvMsg cannot be interrupted")
+v("C04", "writemessage-default-arm", "inprocgrpc/in_process.go",
+  """	case <-remote:
+		// This is weird, but mimics normal gRPC streams: io.EOF is used
+		// to notify client that server has closed the stream
+		return io.EOF
+	}""", """	case <-remote:
+		// This is weird, but mimics normal gRPC streams: io.EOF is used
+		// to notify client that server has closed the stream
+		return io.EOF
+	default:
+	}""", "R1", "select", "non-blocking send drops frames")
+v("C04", "http-server-ctx-background", "httpgrpc/server.go",
+  """		ctx, cancel, err := contextFromHeaders(ctx, r.Header)
+		if err != nil {
+			writeError(w, http.StatusBadRequest)
+			return
+		}
+		defer cancel()
+
+		req, err := ioutil.ReadAll(r.Body)""", """		ctx, cancel, err := contextFromHeaders(context.Background(), r.Header)
+		if err != nil {
+			writeError(w, http.StatusBadRequest)
+			return
+		}
+		defer cancel()
+
+		req, err := ioutil.ReadAll(r.Body)""", "R3", "ctx", "HTTP unary handler detached from the request context")
+
 
 def main():
     if os.path.isdir(OUT):
